@@ -107,6 +107,12 @@ func (f *fwd) resetDials() {
 	f.mu.Unlock()
 }
 
+// strAddr names the target of a refused dial in the error, as the real dialer does.
+type strAddr string
+
+func (a strAddr) Network() string { return "tcp" }
+func (a strAddr) String() string  { return string(a) }
+
 type timeoutErr struct{}
 
 func (timeoutErr) Error() string   { return "i/o timeout" }
@@ -124,11 +130,16 @@ func (f *fwd) dial(ctx context.Context, network, address string) (net.Conn, erro
 		}
 	}
 	fault := f.faults[key]
+	if fault == "" {
+		if i := strings.IndexByte(key, '.'); i > 0 {
+			fault = f.faults["*"+key[i:]]
+		}
+	}
 	f.dials = append(f.dials, dialRec{Addr: address, OK: ok && fault == ""})
 	f.mu.Unlock()
 	switch fault {
 	case "refuse":
-		return nil, &net.OpError{Op: "dial", Net: network, Err: syscall.ECONNREFUSED}
+		return nil, &net.OpError{Op: "dial", Net: network, Addr: strAddr(address), Err: syscall.ECONNREFUSED}
 	case "timeout":
 		return nil, &net.OpError{Op: "dial", Net: network, Err: timeoutErr{}}
 	}
